@@ -58,7 +58,7 @@ package hydra
 //@   property C18
 //@   modifies *
 //@ func (*hydra).SummonSwamp(h, ctx, islandID, swampName) (swampObj, err)
-//@   property C18
+//@   property C18 C16
 //@   modifies *
 //@   csensures[the_slot_flag_is_never_cleared_outside_the_owners_final_cleanup] waiter.ready || !old(waiter.ready)
 //@   before hydra.createNewSwamp [builds_only_after_the_registry_was_seen_empty_for_this_name] isnil(lastret("hydra.getSwamp")) && calls("hydra.getSwamp") > old(calls("hydra.getSwamp")) && calls("Map.LoadOrStore") == old(calls("Map.LoadOrStore")) + 1 && calls("Map.Store") == old(calls("Map.Store"))
@@ -66,3 +66,33 @@ package hydra
 //@   ensures[one_slot_per_call] calls("Map.LoadOrStore") <= old(calls("Map.LoadOrStore")) + 1
 //@   ensures[at_most_one_instance_built_and_registered] calls("hydra.createNewSwamp") <= old(calls("hydra.createNewSwamp")) + 1 && calls("Map.Store") == old(calls("Map.Store")) + (calls("hydra.createNewSwamp") - old(calls("hydra.createNewSwamp")))
 //@   ensures[summoner_drops_at_most_its_own_slot] calls("Map.Delete") <= old(calls("Map.Delete")) + 1
+//@   ensures[C16:after_shutdown_was_marked_nothing_is_opened_or_built] old(h.shuttingDown) == 1 ==> err != nil && isnil(swampObj) && calls("hydra.createNewSwamp") == old(calls("hydra.createNewSwamp")) && calls("Map.LoadOrStore") == old(calls("Map.LoadOrStore"))
+
+// ---------------------------------------------------------------------------------------
+// Graceful stop (property C16: acknowledged writes survive shutdown), per function:
+//   MarkShuttingDown       sets the flag SummonSwamp refuses on (see SummonSwamp's C16 clause);
+//   tryToCloseAllSwamps    visits EVERY registered swamp (the callback never stops the iteration) and
+//                          closes exactly the visited one, once -- Close is what flushes the records
+//                          still waiting for the writer (swamp.Close's C16 clauses);
+//   GracefulStop           marks shutdown BEFORE it starts closing swamps.
+// NOT decided: that no write is acknowledged between the mark and a swamp's Close (interleavings).
+//@ trusted func (github.com/hydraide/hydraide/app/core/hydra/swamp.Swamp).StopSendingInformation(s)
+//@ trusted func (github.com/hydraide/hydraide/app/core/hydra/swamp.Swamp).StopSendingEvents(s)
+//@ trusted func (github.com/hydraide/hydraide/app/core/hydra/swamp.Swamp).Close(s)
+//@ trusted func github.com/hydraide/hydraide/app/panichandler.SafeGo(context, fn)
+//@ func (*hydra).MarkShuttingDown(h)
+//@   property C16
+//@   modifies *
+//@   ensures[marked] old(h.shuttingDown) == 0 || old(h.shuttingDown) == 1 ==> h.shuttingDown == 1
+//@ func (*hydra).tryToCloseAllSwamps$1(key, value) (cont)
+//@   property C16
+//@   modifies *
+//@   ensures[every_registered_swamp_is_visited] cont
+//@   ensures[the_visited_swamp_is_closed_once] calls("Swamp.Close") == old(calls("Swamp.Close")) + 1 && ipay(lastarg("Swamp.Close", 0)) == ipay(value)
+//@ func (*hydra).GracefulStop$1()
+//@   opaque
+//@ func (*hydra).GracefulStop(h)
+//@   property C16
+//@   overflow: assumed
+//@   modifies *
+//@   before SafeGo [shutdown_is_marked_before_swamps_are_closed] calls("hydra.MarkShuttingDown") == old(calls("hydra.MarkShuttingDown")) + 1
